@@ -1891,27 +1891,25 @@ namespace awkward {
 
   const ContentPtr
   Content::getitem_next_array_wrap(const ContentPtr& outcontent,
-                                   const std::vector<int64_t>& shape) const {
-    int64_t length = 0;
-    if (shape.size() >= 2) {
-      length = (int64_t)shape[shape.size() - 2];
+                                   const std::vector<int64_t>& shape,
+                                   int64_t outer_length) const {
+    // the length of each level only matters when its size is zero
+    std::vector<int64_t> lengths(shape.size(), outer_length);
+    for (size_t i = 1;  i < shape.size();  i++) {
+      lengths[i] = lengths[i - 1] * shape[i - 1];
     }
     ContentPtr out =
       std::make_shared<RegularArray>(Identities::none(),
                                      util::Parameters(),
                                      outcontent,
                                      (int64_t)shape[shape.size() - 1],
-                                     length);
+                                     lengths[shape.size() - 1]);
     for (int64_t i = (int64_t)shape.size() - 2;  i >= 0;  i--) {
-      int64_t length = 0;
-      if (i > 0) {
-        length = (int64_t)shape[(size_t)(i - 1)];
-      }
       out = std::make_shared<RegularArray>(Identities::none(),
                                            util::Parameters(),
                                            out,
                                            (int64_t)shape[(size_t)i],
-                                           length);
+                                           lengths[(size_t)i]);
     }
     return out;
   }
